@@ -225,6 +225,15 @@ def search(ctx, disagreements):
     import c07_lib as L
     import c07_e2e
     rows, _, _ = L.registry(strict=False)
+    # 0. the fixed request histories
+    import c07_grid
+    for probe in c07_grid.PROBES:
+        try:
+            hf = c07_e2e.run_history(c07_grid.DISTURB, probe, rows)
+        except Exception:
+            hf = []
+        if hf:
+            return {"case": probe, "url": c07_e2e.case_url(probe), "history": c07_grid.DISTURB, "first_failure": hf[0]}
     # 1. the cases the correspondence disagreed on
     for d in disagreements:
         case = d.get("case")
@@ -261,6 +270,12 @@ def _replay_failure(f):
     import c07_e2e
     import c07_unit
     rows, opts, _ = L.registry(strict=False)
+    if "case" in f and isinstance(f["case"], dict) and "manifest" in f["case"] and isinstance(f.get("history"), list):
+        # a request history: probe, the requests in between, the probe's URLs and the probe again
+        case = {k: v for k, v in f["case"].items() if k != "_reissue"}
+        fails = c07_e2e.run_history(f["history"], case, rows)
+        return {"fails": bool(fails), "failures": fails[:5], "url": c07_e2e.case_url(case),
+                "history": [c07_e2e.case_url(h) for h in f["history"]]}
     if "case" in f and isinstance(f["case"], dict) and "manifest" in f["case"]:
         case = {k: v for k, v in f["case"].items() if k != "_reissue"}
         fails, _, stats = c07_e2e.run_case(case, rows, want_model=False)
